@@ -45,3 +45,14 @@ Theorem c08_positions_with_literals : forall v w, enc_fetch v w -> forall rest, 
 Proof. exact fetch_roundtrip. Qed.
 Check c08_positions_with_literals : forall v w, enc_fetch v w -> forall rest, parse (w ++ rest) = ROk rest v (nlen w).
 Print Assumptions c08_positions_with_literals.
+
+(* LISTED FINDING (known_findings.txt, class resp-code-literal-fallback): the statement of C08 fails at one kind of
+   position -- a literal inside a bracketed response code whose content is not UTF-8.  The witness, on the model
+   (and, replayed by the check, on the implementation): 23 bytes are consumed, the literal's bytes are left over as
+   the beginning of the "next response".  The positions covered by the theorems above are not affected. *)
+Theorem c08_response_code_literal_refuted :
+  exists rest v, parse c08_witness = ROk rest v 23 /\ rest = [255; 254] ++ bs ")] x" ++ [13; 10].
+Proof. exact c08_code_literal_fallback. Qed.
+Check c08_response_code_literal_refuted :
+  exists rest v, parse c08_witness = ROk rest v 23 /\ rest = [255; 254] ++ bs ")] x" ++ [13; 10].
+Print Assumptions c08_response_code_literal_refuted.
